@@ -12,9 +12,16 @@ query with noCache=False and noCache=True, for every flavor.
   case = {"procs": [proc, ...]}
   proc = {"u": "u1"|"u2", "f": flavor, "ops": [op, ...], "q": bool,
           "crash": None | {"op": i, "g": k, "when": "pre"|"post"}}
-       | {"u": user, "adm": True, "f": flavor, "ops": [], ...}   an administrator's load (persists into ups_db)
+       | {"u": user, "adm": True, "f": flavor, "ops": [], ...}   an administrator's load: Eups(asAdmin=True), as
+                                                                 eups admin buildCache -A builds it (persists into ups_db)
        | {"del": [loc, stack, flavor]}                      loc = "u1" | "u2" | "db"   (an outside deletion)
   op   = an operation of harness/c06.py  |  {"k": "DC", "loc": loc, "s": stack, "fl": flavor}
+       | {"k": "UA", "t": user tag, "n": name, "v": version, "s": stack|None, "f": flavor, "F": bool, "N": bool}
+                                                            Eups.assignTag with a user tag (assign, or move to v)
+       | {"k": "UU", "t": user tag, "n": name, "v": version|None, "s": stack|None, ...}   Eups.unassignTag
+
+User tags: every user has his own (hooks.config.Eups.userTags): u1 mine, exp; u2 mine, lab.  Their chain files
+live in the user's tag directory for the stack (the directory of his cache files), one subdirectory per product.
 
 After every process the modification times of all record and cache files are rewritten to the model's logical
 stamps (BASE + stamp seconds), so that no comparison depends on the granularity of the wall clock; which files a
@@ -41,6 +48,8 @@ NAMES = c06.NAMES
 VERSIONS = c06.VERSIONS
 TAGS = c06.TAGS
 USERS = ["u1", "u2"]
+UTAGS = {"u1": ["mine", "exp"], "u2": ["mine", "lab"]}
+ALLUTAGS = ["mine", "exp", "lab"]
 LOCS = USERS + ["db"]
 ALLFLAVORS = ["Linux64", "generic", "Darwin"]
 BASE = 1000000000          # logical stamp k is written as the modification time BASE + k seconds
@@ -133,11 +142,11 @@ def _prod(root, p):
             _canon(root, p.tablefile), sorted(str(t) for t in p.tags)]
 
 
-def ask_everything(x, root, flavors):
+def ask_everything(x, root, flavors, utags=()):
     """every query of the property, through the cache and from the files"""
     e = c06._eups()
     from eups import utils
-    ans = {"decl": [], "tag": [], "pdecl": [], "ptag": [], "list": []}
+    ans = {"decl": [], "tag": [], "pdecl": [], "ptag": [], "list": [], "utag": [], "putag": []}
     flavors = list(dict.fromkeys(flavors))
     for mode, nc in (("cache", False), ("files", True)):
         for n in NAMES:
@@ -158,6 +167,15 @@ def ask_everything(x, root, flavors):
                     p = x.findTaggedProduct(n, t, flavor=fl, noCache=nc)
                     if p is not None:
                         ans["ptag"].append([mode, n, t, fl, os.path.basename(p.stackRoot()), p.version])
+                for t in utags:
+                    for s in STACKS:
+                        p = x.findTaggedProduct(n, t, eupsPathDirs=os.path.join(root, s), flavor=fl, noCache=nc)
+                        if p is not None:
+                            ans["utag"].append([mode, s, n, t, fl, p.version])
+                    p = x.findTaggedProduct(n, t, eupsPathDirs=[os.path.join(root, s) for s in STACKS], flavor=fl,
+                                            noCache=nc)
+                    if p is not None:
+                        ans["putag"].append([mode, n, t, fl, os.path.basename(p.stackRoot()), p.version])
     # eups list: Eups.findProducts has no file mode of its own; its file answer is Database.findProducts
     for n in NAMES:
         for s in STACKS:
@@ -173,17 +191,46 @@ def ask_everything(x, root, flavors):
     return ans
 
 
+def do_uop(x, root, o):
+    """Eups.assignTag / unassignTag with a user tag; outcome classes as c06.do_op"""
+    e = c06._eups()
+    x.force = bool(o.get("F"))
+    x.noaction = bool(o.get("N"))
+    stack = os.path.join(root, o["s"]) if o["s"] else None
+    try:
+        if o["k"] == "UA":
+            x.assignTag(o["t"], o["n"], o["v"], stack)
+        else:
+            x.unassignTag(o["t"], o["n"], o["v"], stack)
+        return "ok"
+    except e.ProductNotFound:
+        return "notfound"
+    except e.EupsException:
+        return "refused"
+    except Exception as ex:  # noqa
+        return "other:" + type(ex).__name__
+    finally:
+        x.force = False
+        x.noaction = False
+
+
 def _proc_child(root, proc):
     e = _fresh_interpreter_state()
     c06._quiet()
     os.environ.clear()
     os.environ.update(proc_environ(root, proc["u"], proc["f"]))
+    from eups import hooks
+    hooks.config.Eups.userTags = list(UTAGS[proc["u"]])
     crash = proc.get("crash")
     cs = {"armed": False}
     if crash:
         cs.update({"g": crash["g"], "when": crash["when"], "count": 0})
         _install_crash(cs)
-    x = e.Eups(flavor=proc["f"])
+    try:
+        x = e.Eups(flavor=proc["f"], asAdmin=bool(proc.get("adm")))
+    except Exception as ex:  # noqa
+        # building the Eups is part of every command: a raise here is reported, not hidden
+        return {"raised": "%s: %s" % (type(ex).__name__, str(ex)[:200]), "loaded": {}, "out": []}
     x.selectVRO(None, None, None, None)
     out = {"loaded": {os.path.basename(k): sorted(v.getFlavors()) for k, v in x.versions.items()
                       if os.path.basename(k) in STACKS},
@@ -199,11 +246,12 @@ def _proc_child(root, proc):
         if crash and crash["op"] == i:
             cs["armed"] = True
             cs["count"] = 0
-        out["out"].append(c06.do_op(x, root, o))
+        out["out"].append(do_uop(x, root, o) if o["k"] in ("UA", "UU") else c06.do_op(x, root, o))
         cs["armed"] = False
     if proc.get("q"):
         from eups import utils
-        out["ans"] = ask_everything(x, root, utils.Flavor().getFallbackFlavors(proc["f"], True) + ALLFLAVORS)
+        out["ans"] = ask_everything(x, root, utils.Flavor().getFallbackFlavors(proc["f"], True) + ALLFLAVORS,
+                                    UTAGS[proc["u"]])
     return out
 
 
@@ -229,6 +277,31 @@ def scan_records(root):
     return out
 
 
+def tag_dir(root, u, s):
+    return cache_dir(root, u, s)
+
+
+def scan_urecords(root):
+    """the users' tag directories: {'U:u1/s1/D/a': path, 'U:u1/s1/C/a/mine': path}"""
+    out = {}
+    for u in USERS:
+        for s in STACKS:
+            d = tag_dir(root, u, s)
+            if not os.path.isdir(d):
+                continue
+            for n in sorted(os.listdir(d)):
+                p = os.path.join(d, n)
+                if not os.path.isdir(p):
+                    continue
+                out["U:%s/%s/D/%s" % (u, s, n)] = p
+                for fn in sorted(os.listdir(p)):
+                    if fn.endswith(".chain"):
+                        out["U:%s/%s/C/%s/%s" % (u, s, n, fn[:-len(".chain")])] = os.path.join(p, fn)
+                    else:
+                        out["U:%s/%s/X/%s/%s" % (u, s, n, fn)] = os.path.join(p, fn)
+    return out
+
+
 def scan_pickles(root):
     out = {}
     for loc in LOCS:
@@ -243,7 +316,8 @@ def scan_pickles(root):
 
 
 def read_pickle(root, path):
-    """canonical content of one cache file: [[name, [[version, dir, table], ...], [[tag, version], ...]], ...]"""
+    """canonical content of one cache file:
+    [[name, [[version, dir, table], ...], [[tag, version], ...], [[user tag, version], ...]], ...]"""
     c06._eups()
     with open(path, "rb") as fd:
         data = pickle.load(fd)
@@ -251,7 +325,8 @@ def read_pickle(root, path):
     for n in sorted(data):
         fam = data[n]
         out.append([n, sorted([v, _canon(root, d[0]), _canon(root, d[1])] for v, d in fam.versions.items()),
-                    sorted([t, v] for t, v in fam.tags.items())])
+                    sorted([t, v] for t, v in fam.tags.items() if not t.startswith("user:")),
+                    sorted([t[len("user:"):], v] for t, v in fam.tags.items() if t.startswith("user:"))])
     return out
 
 
@@ -341,11 +416,55 @@ def gen_op(rng, decls, tags, f):
     return o
 
 
-def gen_case(rng, max_procs=16, flavors=None):
+def gen_uop(rng, decls, utags, u, f):
+    """one user-tag operation of user u (flavor f), aimed at what is declared / what he has tagged"""
+    s = rng.choice([None, None, None, "s1", "s2"])
+    o = {"f": f, "s": s, "F": False, "N": rng.random() < 0.05, "t": rng.choice(UTAGS[u])}
+    known = [k for k in decls if k[3] == f and (s is None or k[0] == s)]
+    mine = [k for k in utags if k[0] == u and k[4] == f and (s is None or k[1] == s)]
+    if rng.random() < 0.62 or not utags:
+        o["k"] = "UA"
+        if known and rng.random() < 0.85:
+            k = rng.choice(known)
+            o["n"], o["v"] = k[1], k[2]
+        else:
+            o["n"], o["v"] = rng.choice(NAMES), rng.choice(VERSIONS)
+    else:
+        o["k"] = "UU"
+        if mine and rng.random() < 0.8:
+            k = rng.choice(mine)
+            o["t"], o["n"] = k[3], k[2]
+            o["v"] = rng.choice([None, utags[k], utags[k]])
+        elif known and rng.random() < 0.7:
+            k = rng.choice(known)
+            o["n"], o["v"] = k[1], rng.choice([None, k[2]])
+        else:
+            o["n"], o["v"] = rng.choice(NAMES), rng.choice([None] + VERSIONS)
+    return o
+
+
+def uspec_step(decls, utags, u, o):
+    """rough specification state of the user tags, to aim later operations (validity is not required)"""
+    f = o["f"]
+    if o["k"] == "UA":
+        for s in ([o["s"]] if o["s"] else STACKS):
+            if (s, o["n"], o["v"], f) in decls:
+                utags[(u, s, o["n"], o["t"], f)] = o["v"]
+                break
+    else:
+        for k in [k for k in utags if k[0] == u and k[2] == o["n"] and k[3] == o["t"] and k[4] == f
+                  and (o["s"] is None or k[1] == o["s"]) and (o["v"] is None or utags[k] == o["v"])][:1]:
+            del utags[k]
+
+
+def gen_case(rng, max_procs=16, flavors=None, user_tags=None):
     flavors = flavors or rng.choice(FLAVOR_SETS)
     two_users = rng.random() < 0.6
     users = USERS if two_users else ["u1"]
-    decls, tags = {}, {}
+    # half of the histories have user tags (a third of their operations)
+    if user_tags is None:
+        user_tags = rng.random() < 0.5
+    decls, tags, utags = {}, {}, {}
     procs = []
     while len(procs) < max_procs - 1:
         if procs and rng.random() < 0.08:
@@ -360,6 +479,11 @@ def gen_case(rng, max_procs=16, flavors=None):
             if rng.random() < 0.07:
                 p["ops"].append({"k": "DC", "loc": rng.choice(users + ["db"]), "s": rng.choice(STACKS),
                                  "fl": rng.choice(flavors)})
+                continue
+            if user_tags and decls and rng.random() < 0.36:
+                o = gen_uop(rng, decls, utags, p["u"], f)
+                uspec_step(decls, utags, p["u"], o)
+                p["ops"].append(o)
                 continue
             o = gen_op(rng, decls, tags, f)
             _, decls, tags = c06.spec_step(decls, tags, o)
@@ -383,6 +507,10 @@ def gen_case(rng, max_procs=16, flavors=None):
 def pop_line(o):
     if o["k"] == "DC":
         return ",".join(["DC", enc(o["loc"]), enc(o["s"]), enc(o["fl"])])
+    if o["k"] in ("UA", "UU"):
+        opt = lambda x: "~" if x is None else (enc(x) or "%")
+        return ",".join([o["k"], enc(o["f"]), opt(o["s"]), "1" if o.get("F") else "0", "1" if o.get("N") else "0",
+                         enc(o["t"]), enc(o["n"]), opt(o["v"]) if o["k"] == "UU" else enc(o["v"])])
     return c06.op_line(o)
 
 
@@ -391,15 +519,15 @@ def proc_line(p):
         return ";".join(["X"] + [enc(x) for x in p["del"]])
     cr = p.get("crash")
     crs = "~" if not cr else "%d,%d,%d" % (cr["op"], cr["g"], 1 if cr["when"] == "post" else 0)
-    loc = "db" if p.get("adm") else p["u"]
-    return ";".join(["P", enc(loc), enc(p["f"]), crs, "1" if p.get("q") else "0",
+    return ";".join(["P", enc(p["u"]), "1" if p.get("adm") else "0", enc(p["f"]), crs, "1" if p.get("q") else "0",
                      "&".join(pop_line(o) for o in p["ops"])])
 
 
-def case_line(case, v_rm=False, v_init=False):
-    univ = ";".join([",".join(NAMES), ",".join(VERSIONS), ",".join(TAGS), ",".join(ALLFLAVORS)])
-    return "\t".join(["case", "1" if v_rm else "0", "1" if v_init else "0", ",".join(STACKS), univ,
-                      "|".join(proc_line(p) for p in case["procs"])])
+def case_line(case, v_rm=False, v_init=False, v_uloc=False, v_ustale=False, v_noread=False, v_shared=False):
+    univ = ";".join([",".join(NAMES), ",".join(VERSIONS), ",".join(TAGS), ",".join(ALLFLAVORS), ",".join(ALLUTAGS)])
+    b = lambda x: "1" if x else "0"
+    return "\t".join(["case", b(v_rm), b(v_init), ",".join(STACKS), univ,
+                      "|".join(proc_line(p) for p in case["procs"]), b(v_uloc), b(v_ustale), b(v_noread), b(v_shared)])
 
 
 def _d(x):
@@ -415,9 +543,10 @@ def parse_content(s):
     if not s:
         return out
     for fam in s.split("+"):
-        n, vs, ts = fam.split("!")
+        n, vs, ts, us = fam.split("!")
         out.append([_d(n), sorted([_d(x) for x in v.split(":")] for v in vs.split("^")) if vs else [],
-                    sorted([_d(x) for x in t.split(":")] for t in ts.split("^")) if ts else []])
+                    sorted([_d(x) for x in t.split(":")] for t in ts.split("^")) if ts else [],
+                    sorted([_d(x) for x in t.split(":")] for t in us.split("^")) if us else []])
     out.sort()
     return out
 
@@ -427,9 +556,13 @@ def parse_model(line):
         raise common.ModelError(line)
     out = []
     for seg in line.split("\t"):
-        oc, recs, pks, loaded, ans = seg.split("#")
+        oc, recs, pks, loaded, ans, urecs = seg.split("#")
         st = {"out": [OUTCLASS.get(x, "other:" + x) for x in oc.split(",")] if oc else [], "rec": {}, "pk": {},
               "loaded": {}, "ans": None}
+        for r in (urecs.split(";") if urecs else []):
+            u, s, k, n, x, t = r.split(",")
+            key = "U:%s/%s/%s/%s" % (_d(u), _d(s), k, _d(n)) + ("" if k == "D" else "/" + _d(x))
+            st["rec"][key] = int(t)
         for r in (recs.split(";") if recs else []):
             s, k, n, x, t = r.split(",")
             key = "%s/%s/%s" % (_d(s), k, _d(n)) + ("" if k == "D" else "/" + _d(x))
@@ -454,7 +587,14 @@ def impl_rows(ans):
         rows.append(["E", md[mode], s, n, v, fl])
         rows.append(["D", md[mode], s, n, v, fl, d, tb])
         for t in tags:
-            rows.append(["H", md[mode], s, n, v, t, fl])
+            if t.startswith("user:"):
+                rows.append(["UH", md[mode], s, n, v, t[len("user:"):], fl])
+            else:
+                rows.append(["H", md[mode], s, n, v, t, fl])
+    for mode, s, n, t, fl, v in ans.get("utag", []):
+        rows.append(["UT", md[mode], s, n, t, fl, v])
+    for mode, n, t, fl, s, v in ans.get("putag", []):
+        rows.append(["UG", md[mode], n, t, fl, s, v])
     for mode, n, v, fl, s, d, tb, tags in ans["pdecl"]:
         rows.append(["F", md[mode], n, v, fl, s, d, tb])
     for mode, s, n, t, fl, v in ans["tag"]:
@@ -467,27 +607,11 @@ def impl_rows(ans):
 
 # ------------------------------------------------------------------ running a case on the implementation
 
-def _admin_child(root, proc):
-    """an administrator's load: ProductStack.fromCache persisting into ups_db itself (what Eups does for asAdmin;
-    Eups(asAdmin=True) itself cannot be built on this tree: Tags.saveGroup raises 'Group not supported')"""
-    e = _fresh_interpreter_state()
-    c06._quiet()
-    os.environ.clear()
-    os.environ.update(proc_environ(root, proc["u"], proc["f"]))
-    from eups.stack import ProductStack
-    out = {"loaded": {}, "out": []}
-    for s in STACKS:
-        ps = ProductStack.fromCache(ups_db(root, s), [proc["f"], "generic"], persistDir=ups_db(root, s),
-                                    userTagDir=None, updateCache=True, autosave=False)
-        out["loaded"][s] = sorted(ps.getFlavors())
-    return out
-
-
 def apply_stamps(root, mst):
     """write the model's logical stamps as modification times"""
-    recs, pks = scan_records(root), scan_pickles(root)
+    recs, pks = dict(scan_records(root), **scan_urecords(root)), scan_pickles(root)
     # files first, directories last: utime on a file does not touch its directory, but keep the order obvious
-    for k, p in sorted(recs.items(), key=lambda kv: kv[0].split("/")[1] == "D"):
+    for k, p in sorted(recs.items(), key=lambda kv: kv[0].split("/")[-3 if kv[0].startswith("U:") else 1] == "D"):
         if k in mst["rec"]:
             t = BASE + mst["rec"][k]
             os.utime(p, (t, t))
@@ -507,25 +631,27 @@ def impl_case(arg):
     try:
         setup_world(root)
         for p, mst in zip(case["procs"], mres):
-            before = mtimes(dict(scan_records(root), **{"P:" + k: v for k, v in scan_pickles(root).items()}))
-            o = {"out": [], "loaded": {}, "ans": None, "died": None}
+            before = mtimes(dict(dict(scan_records(root), **scan_urecords(root)),
+                                 **{"P:" + k: v for k, v in scan_pickles(root).items()}))
+            o = {"out": [], "loaded": {}, "ans": None, "died": None, "raised": None}
             if "del" in p:
                 pp = pickle_path(root, *p["del"])
                 if os.path.exists(pp):
                     os.remove(pp)
                 o["out"] = ["ok"]
             else:
-                r = common.in_child(_admin_child if p.get("adm") else _proc_child, root, p, timeout=120)
+                r = common.in_child(_proc_child, root, p, timeout=120)
                 if r[0] == "ok":
                     o["out"] = r[1]["out"]
                     o["loaded"] = r[1]["loaded"]
+                    o["raised"] = r[1].get("raised")
                     if "ans" in r[1]:
                         o["ans"] = r[1]["ans"]
                 elif r[0] == "died":
                     o["died"] = r[1]
                 else:
                     o["died"] = "exception %s: %s" % (r[1], r[2][:300])
-            recs, pks = scan_records(root), scan_pickles(root)
+            recs, pks = dict(scan_records(root), **scan_urecords(root)), scan_pickles(root)
             after = mtimes(dict(recs, **{"P:" + k: v for k, v in pks.items()}))
             o["rec"] = sorted(k for k in after if not k.startswith("P:"))
             o["pk"] = {}
